@@ -123,17 +123,17 @@ Proof.
   rewrite lookup_cnt_set. destruct (Z.of_nat j =? Z.of_nat i) eqn:E; auto. apply Hc. lia.
 Qed.
 
-Lemma plain_level_spec : forall n tr zshape nz i x zu sh lv' pt e z (body : body_t),
+Lemma plain_level_spec : forall zs n tr zshape nz i x zu sh lv' pt e z (body : body_t),
   length pt = i -> labinv i z ->
   (forall c e' z', labinv (S i) z' -> labinv (S i) (snd (body c e' z'))) ->
   (forall c t z', labinv (S i) z' -> In (c, t) (sub e x) ->
-     spec tr n (S i) lv' (pt ++ [c]) (set_nth x t e) (fst (body c (set_nth x t e) z'))) ->
+     spec zs tr n (S i) lv' (pt ++ [c]) (set_nth x t e) (fst (body c (set_nth x t e) z'))) ->
   let L := {| l_pop := false; l_src := SFib x; l_ufmt := false; l_zufmt := zu; l_proj := None;
               l_shape := sh |} in
-  spec tr n i (L :: lv') pt e (fst (run_level tr zshape nz i L body e z))
+  spec zs tr n i (L :: lv') pt e (fst (run_level tr zshape nz i L body e z))
   /\ labinv i (snd (run_level tr zshape nz i L body e z)).
 Proof.
-  intros n tr zshape nz i x zu sh lv' pt e z body Lpt Hz Hbn Hbody L.
+  intros zs n tr zshape nz i x zu sh lv' pt e z body Lpt Hz Hbn Hbody L.
   unfold run_level. cbn [l_pop l_src l_proj l_ufmt L negb fst snd].
   destruct (lab_reg_inv i z Hz) as (R1 & Hz1 & _). rewrite R1.
   destruct (iter_plain_facts (labinv (S i)) x e body pt (sub e x) 0 _ Hbn Hz1) as (F1 & F2 & F3 & F4).
@@ -171,12 +171,12 @@ Qed.
 (* every nest of plain `for` levels meets the specification: the counter vector keeps its shape,
    ranks are registered in order 0,1,2,..., stamps are ordered, and the rows of the iter traces
    are exactly the reference iteration space with storage positions *)
-Theorem plain_nest_spec_gen : forall n tr zshape nz m lv, forallb plain_level lv = true ->
+Theorem plain_nest_spec_gen : forall zs n tr zshape nz m lv, forallb plain_level lv = true ->
   forall i pt e z, length pt = i -> labinv i z ->
-  spec tr n i lv pt e (fst (run tr zshape nz m lv i pt e z))
+  spec zs tr n i lv pt e (fst (run tr zshape nz m lv i pt e z))
   /\ labinv i (snd (run tr zshape nz m lv i pt e z)).
 Proof.
-  intros n tr zshape nz m lv. induction lv as [|L lv IH]; intros Hpl i pt e z Lpt Hz.
+  intros zs n tr zshape nz m lv. induction lv as [|L lv IH]; intros Hpl i pt e z Lpt Hz.
   - cbn [run fst snd]. split.
     2:{ unfold leaf_update. destruct (th_z z) as [[v|es]|]; auto.
         destruct (skip_pt m pt); auto. }
@@ -195,9 +195,9 @@ Proof.
     + intros c t z' Hz' _. apply IH; auto. rewrite app_length. cbn. lia.
 Qed.
 
-Theorem plain_nest_spec : forall n tr zshape nz m lv, forallb plain_level lv = true ->
+Theorem plain_nest_spec : forall zs n tr zshape nz m lv, forallb plain_level lv = true ->
   forall i pt e z, length pt = i -> labinv i z ->
-  spec tr n i lv pt e (fst (run tr zshape nz m lv i pt e z)).
+  spec zs tr n i lv pt e (fst (run tr zshape nz m lv i pt e z)).
 Proof. intros. apply plain_nest_spec_gen; auto. Qed.
 
 Lemma labinv0 : forall z, labinv 0 {| th_z := z; th_lab := lab0 |}.
@@ -205,19 +205,19 @@ Proof. intros z. split; [reflexivity|]. intros j _. left. reflexivity. Qed.
 
 (* read at the top of a collection session: loop_order = 0..d-1 for the d levels entered, and every
    registered trace file = [header if its rank was reached] ++ rows meeting rows_ok *)
-Theorem plain_nest_top : forall n tr zshape nz m lv keys m0 e z,
+Theorem plain_nest_top : forall zs n tr zshape nz m lv keys m0 e z,
   forallb plain_level lv = true ->
   let evs := fst (run tr zshape nz m lv 0 [] e {| th_z := z; th_lab := lab0 |}) in
   let st' := exec n (init_state keys true m0) evs in
   let d := dr lv [([], e)] in
   m_lo st' = iota d
   /\ forall kk, In kk keys -> exists data,
-       content st' kk = Some (hdrs kk 0 d ++ data) /\ rows_ok tr 0 [] lv [] e kk data.
+       content st' kk = Some (hdrs kk 0 d ++ data) /\ rows_ok zs tr 0 [] lv [] e kk data.
 Proof.
-  intros n tr zshape nz m lv keys m0 e z Hpl evs st' d.
+  intros zs n tr zshape nz m lv keys m0 e z Hpl evs st' d.
   assert (Hsh : shape 0 0 [] [] (init_state keys true m0)).
   { unfold shape. cbn. repeat split; auto. }
-  destruct (plain_nest_spec n tr zshape nz m lv Hpl 0 [] e {| th_z := z; th_lab := lab0 |} eq_refl (labinv0 z)
+  destruct (plain_nest_spec zs n tr zshape nz m lv Hpl 0 [] e {| th_z := z; th_lab := lab0 |} eq_refl (labinv0 z)
               0%nat [] _ Hsh) as (S1 & _ & E1).
   cbn [Nat.max plus] in S1, E1. fold evs in S1, E1. fold st' in S1. fold d in S1, E1.
   split; [apply S1|]. intros kk Hin. destruct (E1 kk) as (data & Ed & Od). exists data.
